@@ -56,8 +56,10 @@ def weightedTardiness (i : Inst) (as : List Nat) : Int :=
   let pt := as.map i.p
   let dt := as.map i.d
   let wt := as.map i.w
-  let pre := cumsum 0 pt
-  let tard := (List.zipWith (fun c d => c - d) pre dt).map (fun x => if x < 0 then 0 else x)
+  let pre := if Params.smtwtpRewardShape.1 then cumsum 0 pt else pt          -- `torch.cumsum(ordered_process_time, dim=1)`
+  let raw := if Params.smtwtpRewardShape.2 then List.zipWith (fun c d => c - d) pre dt   -- `presum - due`
+             else List.zipWith (fun c d => d - c) pre dt
+  let tard := raw.map (fun x => if Params.smtwtpClampCmp.eval x 0 then 0 else x)  -- `t[t < 0] = 0`
   (List.zipWith (fun w t => w * t) wt tard).sum
 
 /-- `_get_reward` -/
